@@ -194,6 +194,10 @@ func excludeT(t *Table, pattern string) (err error) {
 			}
 			return true, nil
 		})
+		// A malformed pattern is an error, and not an empty list.
+		if err != nil {
+			return err
+		}
 	}
 	if p, exclude := excludeType(typeI, pattern); exclude {
 		t.Indexes, err = filter(t.Indexes, func(idx *Index) (bool, error) {
@@ -202,6 +206,10 @@ func excludeT(t *Table, pattern string) (err error) {
 			}
 			return filepath.Match(p, idx.Name)
 		})
+		// A malformed pattern is an error, and not an empty list.
+		if err != nil {
+			return err
+		}
 	}
 	if p, exclude := excludeType(typeF, pattern); exclude {
 		t.ForeignKeys, err = filter(t.ForeignKeys, func(fk *ForeignKey) (bool, error) {
@@ -210,11 +218,19 @@ func excludeT(t *Table, pattern string) (err error) {
 			}
 			return filepath.Match(p, fk.Symbol)
 		})
+		// A malformed pattern is an error, and not an empty list.
+		if err != nil {
+			return err
+		}
 	}
 	if p, exclude := excludeType(typeTg, pattern); exclude {
 		t.Triggers, err = filter(t.Triggers, func(t *Trigger) (bool, error) {
 			return filepath.Match(p, t.Name)
 		})
+		// A malformed pattern is an error, and not an empty list.
+		if err != nil {
+			return err
+		}
 	}
 	if p, exclude := excludeType(typeK, pattern); exclude {
 		t.Attrs, err = filter(t.Attrs, func(a Attr) (bool, error) {
@@ -228,6 +244,10 @@ func excludeT(t *Table, pattern string) (err error) {
 			}
 			return true, nil
 		})
+		// A malformed pattern is an error, and not an empty list.
+		if err != nil {
+			return err
+		}
 	}
 	return
 }
